@@ -131,6 +131,11 @@ func (q Quantity) Negate() Quantity {
 	return Quantity{q.value.Mul(negative), q.unit}
 }
 
+// Abs returns the quantity with the absolute value of its value; the unit is unchanged.
+func (q Quantity) Abs() Quantity {
+	return Quantity{Decimal(decimal.Decimal(q.value).Abs()), q.unit}
+}
+
 // timeDuration returns the time.Duration represented by
 // a time-valued Quantity. Returns an error if the Quantity
 // doesn't represent a valid time duration.
